@@ -10,7 +10,7 @@
 (*     value), all 0xFF / 0x80 / 0x00 (sign bits of the 24 bit fixed point *)
 (*     and of the half floats, nan / inf halves), a second permutation;    *)
 (*  [kind |-> "cloud", unit |-> 1000, splats |-> <<[p, s, c, a, r]>>, ..]  *)
-(*     small splat clouds (0, 1, 2 splats) whose attributes are taken from *)
+(*     small splat clouds (0..3 splats) whose attributes are taken from    *)
 (*     edge-value tables in 1/1000: colours below / at / above the         *)
 (*     displayable range, rotation components exactly +-1, saturating      *)
 (*     opacities, positions that are not float32 numbers.                  *)
@@ -68,8 +68,9 @@ Pairs == Profiles \X Profiles
 Clouds ==
     {<<>>} \cup {<<Splat(x[1], x[2])>> : x \in Pairs}
     \cup {<<Splat(x[1], x[2]), Splat(y[1], y[2])>> : x \in Pairs, y \in Pairs}
+    \cup {<<Splat(x, x), Splat(y, z), Splat(z, x)>> : x \in Profiles, y \in Profiles, z \in Profiles}
 CloudCases ==
-    {[kind |-> "cloud", unit |-> 1000, splats |-> s, frest |-> (IF Len(s) = 2 THEN 45 ELSE 0), normal |-> Len(s) = 1]
+    {[kind |-> "cloud", unit |-> 1000, splats |-> s, frest |-> (IF Len(s) = 2 THEN 45 ELSE IF Len(s) = 3 THEN 9 ELSE 0), normal |-> Len(s) = 1]
         : s \in {c \in Clouds : Len(c) \in CloudCounts}}
 
 Init == g \in SpzCases \cup CloudCases
